@@ -45,7 +45,7 @@ func (r *c17JarDIDResolver) Resolve(id did.DID, _ *resolver.ResolveMetadata) (*d
 
 // add registers key under kid in the document of the DID kid parses to; an existing document is never extended
 // (the attacker never gets a key into the victim's document).
-func (r *c17JarDIDResolver) add(kid string, key crypto.PublicKey) {
+func (r *c17JarDIDResolver) add(kid string, key crypto.PublicKey, meta map[string]string) {
 	id, err := did.ParseDIDURL(kid)
 	if err != nil || id.DID.Empty() {
 		return
@@ -57,13 +57,21 @@ func (r *c17JarDIDResolver) add(kid string, key crypto.PublicKey) {
 	if err != nil {
 		return
 	}
+	// what the JsonWebKey2020 verification method announces about the key is written by the owner of the document
+	for k, v := range meta {
+		if k == "key_ops" {
+			vm.PublicKeyJwk[k] = []interface{}{v}
+		} else {
+			vm.PublicKeyJwk[k] = v
+		}
+	}
 	doc := &did.Document{ID: id.DID}
 	doc.AddAssertionMethod(vm)
 	r.docs[id.DID.String()] = doc
 }
 
 func c17JarGen(t *rapid.T) c17JarCase {
-	return c17JarCase{V: jose.Gen(t, jose.GenOpts{Near: true})}
+	return c17JarCase{V: jose.Gen(t, jose.GenOpts{Near: true, JWKMeta: true})}
 }
 
 func c17JarRun(x *h.Ctx, c c17JarCase) {
@@ -80,14 +88,18 @@ func c17JarRun(x *h.Ctx, c c17JarCase) {
 	}
 	keys := jose.Keys(c.V)
 	b := jose.Build(w, c.V)
+	var meta map[string]string
+	if len(b.F.Sigs) == 1 {
+		meta = b.F.Sigs[0].JWKExtra
+	}
 
 	ctrl := gomock.NewController(x.TB)
 	var obs jose.Observation
 	// honest DID resolution (every DID has exactly its own document) under the real DIDKeyResolver; the attacker's key id
 	// may be a near miss of the victim's DID and resolves to the attacker's own document
 	dids := &c17JarDIDResolver{docs: map[string]*did.Document{}}
-	dids.add(w.Kids[jose.Victim], keys[jose.Victim].Public())
-	dids.add(w.Kids[jose.Attacker], keys[jose.Attacker].Public())
+	dids.add(w.Kids[jose.Victim], keys[jose.Victim].Public(), meta)
+	dids.add(w.Kids[jose.Attacker], keys[jose.Attacker].Public(), meta)
 	realResolver := resolver.DIDKeyResolver{Resolver: dids}
 	if c.V.Near != "" {
 		_, rerr := realResolver.ResolveKeyByID(w.Kids[jose.Attacker], nil, resolver.AssertionMethod)
